@@ -853,6 +853,20 @@ func TestVerifC18(t *testing.T) {
 	defer out.Close()
 	annotate := os.Getenv("VERIF_MODE") == "annotate"
 	for _, line := range vh.ReadOps() {
+		if len(line.Toks) > 0 && line.Toks[0] == "c18.sh" {
+			obs := vh.Catch(func() string {
+				sc := c18parseScript(line.Toks)
+				if annotate {
+					return sc.print()
+				}
+				if got := sc.print(); got != line.Line {
+					return "bad-annot " + got
+				}
+				return sc.run()
+			})
+			out.Put(line.Idx, "%s", obs)
+			continue
+		}
 		if len(line.Toks) == 0 || (line.Toks[0] != "c18.ev" && line.Toks[0] != "c18.evv") {
 			continue
 		}
@@ -1057,4 +1071,227 @@ func c18union(op *c18op, h c18heap, ins [][]reflect.Value) string {
 		parts = append(parts, s)
 	}
 	return strings.Join(parts, ",")
+}
+
+// ---- shared expression objects: `c18.sh <nObj> <objdef>* <nSteps> <step>*` --------------------------------------------
+
+type c18scomp struct {
+	isRef bool
+	id    int
+	arg   c18arg
+}
+type c18sitem struct {
+	tuple bool
+	comps []c18scomp
+}
+type c18sobj struct {
+	kind  string // any anyvalues eq in
+	arg   c18arg
+	items []c18sitem
+}
+type c18sstep struct {
+	kind    string // R E
+	id      int
+	tyNames []string
+	types   []reflect.Type
+	inputs  []c18arg
+}
+type c18script struct {
+	objs  []c18sobj
+	steps []c18sstep
+}
+
+func (p *c18parser) scomp() c18scomp {
+	switch p.next() {
+	case "v":
+		return c18scomp{arg: p.arg()}
+	case "r":
+		return c18scomp{isRef: true, id: p.num()}
+	}
+	panic("c18: bad shared comp")
+}
+
+func c18parseScript(toks []string) *c18script {
+	p := &c18parser{toks: toks, pos: 1}
+	sc := &c18script{}
+	nObj := p.num()
+	for i := 0; i < nObj; i++ {
+		o := c18sobj{kind: p.next()}
+		switch o.kind {
+		case "any", "anyvalues":
+		case "eq":
+			o.arg = p.arg()
+		case "in":
+			k := p.num()
+			for j := 0; j < k; j++ {
+				switch p.next() {
+				case "c":
+					o.items = append(o.items, c18sitem{comps: []c18scomp{p.scomp()}})
+				case "t":
+					m := p.num()
+					it := c18sitem{tuple: true}
+					for l := 0; l < m; l++ {
+						it.comps = append(it.comps, p.scomp())
+					}
+					o.items = append(o.items, it)
+				default:
+					panic("c18: bad shared item")
+				}
+			}
+		default:
+			panic("c18: bad objdef " + o.kind)
+		}
+		for _, it := range o.items {
+			for _, c := range it.comps {
+				if c.isRef && c.id >= i {
+					panic("c18: forward object reference")
+				}
+			}
+		}
+		sc.objs = append(sc.objs, o)
+	}
+	nSteps := p.num()
+	for i := 0; i < nSteps; i++ {
+		st := c18sstep{kind: p.next()}
+		if st.kind != "R" && st.kind != "E" {
+			panic("c18: bad step")
+		}
+		st.id = p.num()
+		if st.id >= nObj {
+			panic("c18: step on unknown object")
+		}
+		k := p.num()
+		for j := 0; j < k; j++ {
+			name := strings.SplitN(p.next(), ":", 2)[0]
+			st.tyNames = append(st.tyNames, name)
+			st.types = append(st.types, c18type(name))
+		}
+		if st.kind == "E" {
+			for j := 0; j < k; j++ {
+				if p.peek() == "nil" {
+					p.next()
+					st.inputs = append(st.inputs, c18arg{isNil: true})
+				} else {
+					st.inputs = append(st.inputs, c18arg{n: p.term()})
+				}
+			}
+		}
+		sc.steps = append(sc.steps, st)
+	}
+	if p.pos != len(toks) {
+		panic("c18: trailing tokens")
+	}
+	return sc
+}
+
+func c18tdesc(name string, t reflect.Type) string {
+	impls := "-"
+	if t.Kind() == reflect.Interface {
+		if t.NumMethod() == 0 {
+			impls = "*"
+		} else if l := c18impls[name]; len(l) > 0 {
+			impls = strings.Join(l, ",")
+		}
+	}
+	return fmt.Sprintf("%s:%s:%d:%s", name, c18kind(t), t.Size(), impls)
+}
+
+func (sc *c18script) print() string {
+	b := []string{"c18.sh", strconv.Itoa(len(sc.objs))}
+	pc := func(c c18scomp) {
+		if c.isRef {
+			b = append(b, "r", strconv.Itoa(c.id))
+		} else {
+			b = append(b, "v")
+			c.arg.print(&b)
+		}
+	}
+	for _, o := range sc.objs {
+		b = append(b, o.kind)
+		switch o.kind {
+		case "eq":
+			o.arg.print(&b)
+		case "in":
+			b = append(b, strconv.Itoa(len(o.items)))
+			for _, it := range o.items {
+				if it.tuple {
+					b = append(b, "t", strconv.Itoa(len(it.comps)))
+				} else {
+					b = append(b, "c")
+				}
+				for _, c := range it.comps {
+					pc(c)
+				}
+			}
+		}
+	}
+	b = append(b, strconv.Itoa(len(sc.steps)))
+	for _, st := range sc.steps {
+		b = append(b, st.kind, strconv.Itoa(st.id), strconv.Itoa(len(st.types)))
+		for i, t := range st.types {
+			b = append(b, c18tdesc(st.tyNames[i], t))
+		}
+		for _, a := range st.inputs {
+			if a.isNil {
+				b = append(b, "nil")
+			} else {
+				a.n.print(&b)
+			}
+		}
+	}
+	return strings.Join(b, " ")
+}
+
+// run builds the objects ONCE (shared pointers, arg.AnyValues is the package-level object) and plays the script.
+// A= marks the Eval steps on Any objects: the property demands `t` there whatever happened before.
+func (sc *c18script) run() string {
+	h := c18heap{}
+	var objs []Expr
+	for _, o := range sc.objs {
+		switch o.kind {
+		case "any":
+			objs = append(objs, Any())
+		case "anyvalues":
+			objs = append(objs, AnyValues)
+		case "eq":
+			objs = append(objs, Equals(o.arg.iface(h)))
+		case "in":
+			var vals []interface{}
+			for _, it := range o.items {
+				var cs []interface{}
+				for _, c := range it.comps {
+					if c.isRef {
+						cs = append(cs, objs[c.id])
+					} else {
+						cs = append(cs, c.arg.iface(h))
+					}
+				}
+				if it.tuple {
+					vals = append(vals, cs)
+				} else {
+					vals = append(vals, cs[0])
+				}
+			}
+			objs = append(objs, In(vals...))
+		}
+	}
+	var obs, marks []string
+	for _, st := range sc.steps {
+		if st.kind == "R" {
+			obs = append(obs, c18resolve(objs[st.id], st.types))
+			marks = append(marks, "-")
+			continue
+		}
+		var in []reflect.Value
+		for j, a := range st.inputs {
+			in = append(in, c18input(st.types[j], a, h))
+		}
+		obs = append(obs, c18eval(objs[st.id], in))
+		if k := sc.objs[st.id].kind; k == "any" || k == "anyvalues" {
+			marks = append(marks, "a")
+		} else {
+			marks = append(marks, "-")
+		}
+	}
+	return "S=" + strings.Join(obs, ",") + " A=" + strings.Join(marks, ",")
 }
